@@ -2,7 +2,7 @@
 # usage: confirmseed2.sh <seed dir> <name> [dest for flat demo dir]
 # like confirmseed.sh but places demo/<subdir>/... at <subdir>/ ("root" -> repo root) when demo/ has subdirectories
 export GOFLAGS=-mod=mod GOPROXY=off GOSUMDB=off GOTOOLCHAIN=local
-sd=$1; name=$2; dest=${3:-.}
+sd=$(readlink -f "$1"); name=$2; dest=${3:-.}
 wt=/tmp/confirm-$name
 git -C /repo worktree remove --force $wt >/dev/null 2>&1
 git -C /repo worktree add -q $wt HEAD || exit 2
